@@ -254,6 +254,26 @@ func runTreeWith(rd *rjson.ValueReader, sw *shardWriter, j *jb, data []byte, seg
 	if !done {
 		j.raw(`0`)
 	}
+	// trees too deep to log: the strings (keys and values, in walk order) of the helper's argument and of its result
+	j.raw(`},"deepcompat":{"seen":`)
+	if rvOK && treeDepth(rv) > maxLoggedDepth && singleKeyed(rv) {
+		var out interface{}
+		guardPanic(&panics, func() {
+			switch t := rv.(type) {
+			case []interface{}:
+				out = rjson.StdLibCompatibleSlice(t)
+			case map[string]interface{}:
+				out = rjson.StdLibCompatibleMap(t)
+			}
+		})
+		j.raw(`1,"arg":[`)
+		j.leafStrings(rv, new(bool))
+		j.raw(`],"out":[`)
+		j.leafStrings(out, new(bool))
+		j.raw(`]`)
+	} else {
+		j.raw(`0`)
+	}
 	j.raw(`},"panics":`)
 	j.int(panics)
 	j.raw(`,"unch":`)
@@ -263,6 +283,72 @@ func runTreeWith(rd *rjson.ValueReader, sw *shardWriter, j *jb, data []byte, seg
 		sw.write(j.b)
 	}
 	st.note(data, panics > 0)
+}
+
+// singleKeyed: no object in v has more than one key (so that walk order does not depend on how keys sort).
+func singleKeyed(v interface{}) bool {
+	for {
+		switch t := v.(type) {
+		case []interface{}:
+			if len(t) != 1 {
+				for _, x := range t {
+					if !singleKeyed(x) {
+						return false
+					}
+				}
+				return true
+			}
+			v = t[0]
+		case map[string]interface{}:
+			if len(t) > 1 {
+				return false
+			}
+			if len(t) == 0 {
+				return true
+			}
+			for _, x := range t {
+				v = x
+			}
+		default:
+			return true
+		}
+	}
+}
+
+// leafStrings writes every key and string value of v in walk order.
+func (j *jb) leafStrings(v interface{}, some *bool) {
+	emit := func(s string) {
+		if *some {
+			j.comma()
+		}
+		*some = true
+		j.bytes([]byte(s))
+	}
+	for {
+		switch t := v.(type) {
+		case string:
+			emit(t)
+			return
+		case []interface{}:
+			if len(t) != 1 {
+				for _, x := range t {
+					j.leafStrings(x, some)
+				}
+				return
+			}
+			v = t[0]
+		case map[string]interface{}:
+			if len(t) != 1 {
+				return
+			}
+			for k, x := range t {
+				emit(k)
+				v = x
+			}
+		default:
+			return
+		}
+	}
 }
 
 // shaped documents for generic decoding
@@ -374,7 +460,9 @@ func genTrees(c *genCtx) error {
 	if c.want("depth") {
 		depths := []int{9999, 10000, 10001}
 		for _, d := range depths {
-			for _, sh := range [][3]string{{"[", "]", ""}, {"[", "]", "1"}, {`{"a":`, "}", "1"}, {`{"a":`, "}", "{}"}, {`[{"a":`, "}]", "null"}, {`{"a":[`, "]}", `"s"`}} {
+			for _, sh := range [][3]string{{"[", "]", ""}, {"[", "]", "1"}, {`{"a":`, "}", "1"}, {`{"a":`, "}", "{}"}, {`[{"a":`, "}]", "null"}, {`{"a":[`, "]}", `"s"`},
+				// invalid UTF-8 in the deepest container and in the keys on the way down (the slice/map helpers at depth)
+				{"[", "]", "\"v\xff\""}, {"{\"k\xfe\":", "}", "\"v\xff\""}, {"[{\"a\xc3\":", "}]", "[\"\xe2\x82\"]"}} {
 				per := 1
 				if len(sh[1]) == 2 {
 					per = 2
